@@ -25,7 +25,7 @@ HDIR = os.path.join(VERIF, "h")
 INC = os.path.join(HDIR, "include")
 BASE_FLAGS = ["-I%s/src/include" % REPO, "-I%s/src/conf" % REPO, "-std=c99", "-DJANET_VERIF"]
 HARNESS_FLAGS = ["-iquote", "%s/src/core" % REPO, "-I" + INC, "-I" + HDIR]
-CBMC_BASE = ["--no-malloc-may-fail", "--unwinding-assertions", "--drop-unused-functions",
+CBMC_BASE = ["--no-malloc-may-fail", "--object-bits", "12", "--unwinding-assertions", "--drop-unused-functions",
              "--signed-overflow-check", "--div-by-zero-check", "--undefined-shift-check"]
 # E7: out-of-object pointer *formation/relation* (no dereference) is filed separately
 UB_FORMATION = re.compile(r"^(pointer relation: |pointer arithmetic: )")
@@ -376,6 +376,8 @@ def run_case_(c, tier, keep=False):
         c.wall_s = time.time() - t0
         return c
     timeout = c.get("timeout", 300)
+    if os.environ.get("VF_TIMEOUT"):
+        timeout = int(os.environ["VF_TIMEOUT"])
     if tier == "thorough":
         timeout = c.get("timeout_thorough", timeout * 2)
     memcap = int(max(c.get("mem_gb", 3) * 2, 6) * 1024 * 1024)   # hard cap = twice the declared budget (>= 6 GB)
@@ -596,16 +598,17 @@ def make_replay(c, linked, wd, timeout, memcap):
         c.detail += " | replay: trace only (harness marked native=false: %s)" % c.get("native_why", "stubs not natively linkable")
 
 
-def native_lib(defines):
+def native_lib(defines, unit_defines=None):
     """all of /repo/src/core compiled natively (ASan+UBSan, -O0) with the harness' defines, as a static archive"""
-    key = keyhash(sorted(defines))
+    unit_defines = unit_defines or {}
+    key = keyhash(sorted(defines), sorted((k, tuple(v)) for k, v in unit_defines.items()))
     d = os.path.join(BUILD, "native", tree_hash(), key)
     lib = os.path.join(d, "libjanet_vf.a")
     with lock_for(lib):
-        return _native_lib(defines, d, lib)
+        return _native_lib(defines, d, lib, unit_defines)
 
 
-def _native_lib(defines, d, lib):
+def _native_lib(defines, d, lib, unit_defines):
     if os.path.exists(lib):
         return lib, None
     os.makedirs(d, exist_ok=True)
@@ -614,7 +617,7 @@ def _native_lib(defines, d, lib):
     units = sorted(glob.glob(os.path.join(REPO, "src/core/*.c")))
     def cc(u):
         o = os.path.join(d, os.path.basename(u)[:-2] + ".o")
-        rc, _, e, _, _ = sh(base + ["-c", u, "-o", o])
+        rc, _, e, _, _ = sh(base + list(unit_defines.get(os.path.basename(u), [])) + ["-c", u, "-o", o])
         return (o, None) if rc == 0 else (None, "%s: %s" % (u, e[-1500:]))
     with ThreadPoolExecutor(max_workers=8) as ex:
         res = list(ex.map(cc, units))
@@ -640,7 +643,7 @@ def native_replay(rdir):
     for x in meta.get("extra_sources", []):
         srcs.append(os.path.join(os.path.dirname(hp), x))
     log = []
-    lib, err = native_lib(meta.get("hdr_defines", []))
+    lib, err = native_lib(meta.get("hdr_defines", []), meta.get("unit_defines", {}))
     if err:
         log.append(err)
         open(os.path.join(rdir, "native.log"), "w").write("\n".join(log))
